@@ -112,10 +112,31 @@ pub fn run(progs: &str, seed: u64, scheds: usize, out: &str) -> std::io::Result<
                 2 => vec![1023, 1, 512],
                 _ => (0..(2 + rng.below(5))).map(|_| 1 + rng.below(1500) as usize).collect(),
             };
-            let dev = Dev::new();
+            let dev = Dev::recording();
             dev.set_chunks(sched.clone());
             let mut null = TraceOut::create("/dev/null")?;
             let wo = run_writer(&prog, &dev, &mut null);
+            // the device read loops of this run (maximal runs of consecutive reads): [want, got] per read
+            {
+                let st = dev.0.borrow();
+                let mut loops: Vec<Value> = Vec::new();
+                let mut cur: Vec<Value> = Vec::new();
+                for op in st.ops.iter() {
+                    match op {
+                        crate::dev::DevOp::Read { want, got, .. } => cur.push(json!([want, got])),
+                        _ => {
+                            if !cur.is_empty() {
+                                loops.push(Value::Array(std::mem::take(&mut cur)));
+                            }
+                        }
+                    }
+                }
+                if !cur.is_empty() {
+                    loops.push(Value::Array(cur));
+                }
+                loops.truncate(300);
+                t.ev(json!({"ev":"c16_readloops","sched":sched,"loops":loops}));
+            }
             let same_file = wo.all_ok && dev.snapshot() == reference;
             let reads = read_digest(&reference, &ops, &ctx, sched.clone());
             t.ev(json!({"ev":"c16_chunk","sched":sched,"write_ok": if wo.all_ok {1} else {0},
